@@ -27,12 +27,7 @@ thread_local! {
 #[cfg(feature = "full")]
 fn recorder<'a, 'b>(words: &'b [Word<'a>], line_widths: &'b [usize]) -> Vec<&'b [Word<'a>]> {
     let p = REC_PEN.with(|c| c.get());
-    let mut pen = Penalties::new();
-    pen.nline_penalty = p[0];
-    pen.overflow_penalty = p[1];
-    pen.short_last_line_fraction = p[2];
-    pen.short_last_line_penalty = p[3];
-    pen.hyphen_penalty = p[4];
+    let pen = penalties_of(p);
     let lws: Vec<f64> = line_widths.iter().map(|w| *w as f64).collect();
     let res = wrap_optimal_fit(words, &lws, &pen).unwrap();
     let key = format!(
@@ -59,6 +54,21 @@ fn recorder<'a, 'b>(words: &'b [Word<'a>], line_widths: &'b [usize]) -> Vec<&'b 
 /// texts whose paragraphs the linebreak oracle must cover in addition to the input
 fn note_text(t: &str) {
     TEXTS.with(|x| x.borrow_mut().push(t.to_string()));
+}
+
+/// The documented default penalties are taken from `Penalties::new()` itself, so that a
+/// change of the defaults shows up as a disagreement with the model's `default_penalties`.
+#[cfg(feature = "full")]
+fn penalties_of(p: [usize; 5]) -> Penalties {
+    let mut pen = Penalties::new();
+    if p != [1000, 2500, 4, 25, 25] {
+        pen.nline_penalty = p[0];
+        pen.overflow_penalty = p[1];
+        pen.short_last_line_fraction = p[2];
+        pen.short_last_line_penalty = p[3];
+        pen.hyphen_penalty = p[4];
+    }
+    pen
 }
 
 // ---------------------------------------------------------------- decoding
@@ -142,7 +152,22 @@ impl OptSpec {
             },
         }
     }
+    /// true when the spec is exactly what `Options::new(width)` documents for this feature set
+    fn is_library_default(&self) -> bool {
+        let full = cfg!(feature = "full");
+        !self.crlf
+            && self.ii.is_empty()
+            && self.si.is_empty()
+            && self.bw
+            && self.spl == 1
+            && self.unicode == full
+            && (if full { self.alg == Some([1000, 2500, 4, 25, 25]) } else { self.alg.is_none() })
+    }
     pub fn options(&self) -> Options<'_> {
+        if self.is_library_default() {
+            // no builder calls: a change of the library's defaults becomes visible
+            return Options::new(self.w);
+        }
         let mut o = Options::new(self.w)
             .line_ending(if self.crlf { LineEnding::CRLF } else { LineEnding::LF })
             .initial_indent(&self.ii)
@@ -176,13 +201,10 @@ impl OptSpec {
     pub fn algorithm(&self) -> WrapAlgorithm {
         #[cfg(feature = "full")]
         if let Some(p) = self.alg {
-            let mut pen = Penalties::new();
-            pen.nline_penalty = p[0];
-            pen.overflow_penalty = p[1];
-            pen.short_last_line_fraction = p[2];
-            pen.short_last_line_penalty = p[3];
-            pen.hyphen_penalty = p[4];
-            return WrapAlgorithm::OptimalFit(pen);
+            if p == [1000, 2500, 4, 25, 25] {
+                return WrapAlgorithm::new_optimal_fit();
+            }
+            return WrapAlgorithm::OptimalFit(penalties_of(p));
         }
         WrapAlgorithm::FirstFit
     }
@@ -516,12 +538,7 @@ pub fn run(fields: &[&str]) -> String {
             let lws = dnums(fields[2]);
             let p: Vec<usize> = fields[3].split(':').map(|x| x.parse().unwrap()).collect();
             guarded(|| {
-                let mut pen = Penalties::new();
-                pen.nline_penalty = p[0];
-                pen.overflow_penalty = p[1];
-                pen.short_last_line_fraction = p[2];
-                pen.short_last_line_penalty = p[3];
-                pen.hyphen_penalty = p[4];
+                let pen = penalties_of([p[0], p[1], p[2], p[3], p[4]]);
                 match wrap_optimal_fit(&frs, &lws, &pen) {
                     Ok(g) => groups_enc(&frs, &g),
                     Err(_) => "ERR".to_string(),
